@@ -92,6 +92,8 @@ theorem silent_onDemandStaticSourceStop : Silent onDemandStaticSourceStop := by
     simp_all [upd]
 theorem silent_onDemandPublisherStop : Silent onDemandPublisherStop := by
   unfold onDemandPublisherStop; silent
+theorem silent_onDemandPublisherWaitAgain : Silent onDemandPublisherWaitAgain := by
+  unfold onDemandPublisherWaitAgain; silent
 theorem silent_holdDemand : Silent holdDemand := by
   intro w
   unfold holdDemand onDemandStaticSourceStart onDemandPublisherStart
@@ -100,7 +102,9 @@ theorem silent_holdDemand : Silent holdDemand := by
     · obtain ⟨a1, a2, a3⟩ := silent_srcStart w
       simp_all [emit, upd]
     · simp
-  · split <;> simp
+  · split
+    · simp
+    · exact silent_onDemandPublisherWaitAgain w
 theorem silent_closeCheck : Silent closeCheck := by unfold closeCheck; silent
 theorem silent_subErrCleanup : Silent subErrCleanup := by
   intro w; unfold subErrCleanup; split
